@@ -30,13 +30,20 @@ def run(ctx):
     out = ctx.harness(binary, ["-plans", pdir, "-out", ctx.path("seq.ndjson"), "-conc", ctx.path("conc.ndjson"),
                          "-seed", ctx.seed, "-hist", ctx.q(200, 4000), "-nconc", ctx.q(60, 1500),
                          "-nwide", ctx.q(40, 800), "-maxops", ctx.q(80, 200),
-                         "-nrace", ctx.q(100000, 1500000), "-nracekeep", ctx.q(3600, 60000), "-nbulk", ctx.q(150, 3000)],
-                traces=[ctx.path("seq.ndjson"), ctx.path("conc.ndjson")])
+                         "-nrace", ctx.q(100000, 1500000), "-nracekeep", ctx.q(3600, 60000), "-nbulk", ctx.q(150, 3000),
+                         "-long", ctx.path("long.ndjson"), "-longchurn", 65540, "-longtouch", ctx.q(700, 65540),
+                         "-nshape", ctx.q(100, -1)],
+                traces=[ctx.path("seq.ndjson"), ctx.path("conc.ndjson"), ctx.path("long.ndjson")])
     # 4. validate what the real code did
     seq = ctx.load_traces(ctx.path("seq.ndjson"))
     conc = ctx.load_traces(ctx.path("conc.ndjson"))
     rj = ctx.validate(fam, "LRU_Trace", "LRU_Trace.cfg", seq, label="sequential", chunk=20000)
     rj += ctx.validate(fam, "LRU_Trace", "LRU_Trace.cfg", conc, label="concurrent", chunk=6000)
+    # long runs (run-length encoded events, one call per TLC step): without TypeOK, whose duplicate-freedom
+    # clause is quadratic in the number of entries - it is a property of the specification's own states and
+    # is checked on all other traces and exhaustively above
+    long = ctx.load_traces(ctx.path("long.ndjson"))
+    rj += ctx.validate(fam, "LRU_Trace", "LRU_Trace_long.cfg", long, label="long runs", chunk=20000)
     ctx.judge(rj)
     import re
     m = re.search(r"race_rounds=(\d+) race_rounds_with_overlap=(\d+)", out)
@@ -45,6 +52,8 @@ def run(ctx):
     ctx.extra["plans"] = len(plans)
     ctx.extra["sequential_traces"] = len(seq)
     ctx.extra["concurrent_traces"] = len(conc)
+    ctx.extra["long_run_traces"] = len(long)
+    ctx.extra["long_run_calls"] = sum(e.get("n", 1) for t in long for e in t if e.get("ev") in ("run", "callr"))
     ctx.assumptions += [
         "wide variants: events are routed to per-shard traces with the public remap index (checked in C17)",
         "concurrent histories: inv/res logged outside the cache lock; TLC searches for a linearization",
